@@ -1,7 +1,8 @@
 /-
   Model of internal/hwmon/hwmon.go (`GetChips`, `GetFans`, `GetTempSensors`, `computeIdentifier`,
-  `findPlatform`, `UpdateFanConfigFromHwMonControllers`, `setFanConfigPaths`) and of the hwmon
-  branch of `initializeSensors` in internal/backend.go — operation by operation.
+  `findPlatform`, `UpdateFanConfigFromHwMonControllers`, `setFanConfigPaths`), of the hwmon
+  branch of `initializeSensors` and of the loops of `initializeSensors` / `initializeFans` over
+  the configured hwmon entries in internal/backend.go — operation by operation.
   Core Lean only.
 
   Trusted / abstracted:
@@ -262,6 +263,52 @@ def bindSensor (matchp : String → String → Bool) (chips : List Chip) (sel : 
   | .ok (false, _) => .err "no-hwmon-device"
   | .err e => .err e
   | .panic s => .panic s
+
+/-! ## Several entries in one call: the loops of `initializeSensors` / `initializeFans`
+
+  Both functions of internal/backend.go have the same shape
+
+      for _, config := range configuration.CurrentConfig.<Sensors|Fans> {
+          if config.HwMon != nil { <bind this entry>; if it failed { return error } }
+          x, err := New<Sensor|Fan>(config)       // cannot fail for an entry with `HwMon != nil`
+          list = append(list, x); Register<Sensor|Fan>(x)
+      }
+
+  `config` is a fresh loop-local copy of the entry in every iteration and the binding of an entry
+  reads only `controllers` and that entry (`found` is re-initialised per entry; the fan code is
+  called with `&config`, the address of the copy, and writes through `config.HwMon`, which is the
+  entry's OWN `*HwMonFanConfig`): nothing is carried from one entry to the next. The first entry
+  that cannot be bound aborts the whole call with an error (start-up fails); the entries after
+  it are not looked at.
+
+  Only the hwmon entries are modelled (`sels` = the entries with `HwMon != nil`, in configuration
+  order); the result lists, per entry in this order, what the created sensor / fan is bound to.
+  `sensor.GetValue()` failing at this point is only a warning. The error carries the position of
+  the failing entry (the Go error text names the entry's id). -/
+
+/-- the shared loop; `i` = position of the head of the remaining entries, `acc` = `sensorList` /
+    `fanList` so far -/
+def bindEntriesLoop {σ β : Type} (bind1 : σ → Res β) (tag : String) :
+    Nat → List σ → List β → Res (List β)
+  | _, [], acc => .ok acc
+  | i, sel :: rest, acc =>
+    match bind1 sel with
+    | .ok b => bindEntriesLoop bind1 tag (i + 1) rest (acc ++ [b])
+    | .err _ => .err s!"{tag}@{i}"
+    | .panic s => .panic s
+
+/-- `initializeSensors(controllers)` restricted to its hwmon entries: the `Input` of every created
+    sensor, or `.err "no-hwmon-device@<i>"` for the first entry `i` without a device. -/
+def bindSensors (matchp : String → String → Bool) (chips : List Chip) (sels : List SensorSel) :
+    Res (List String) :=
+  bindEntriesLoop (bindSensor matchp chips) "no-hwmon-device" 0 sels []
+
+/-- `initializeFans(controllers)` restricted to its hwmon entries: the updated `Config.HwMon` of
+    every created fan, or `.err "no-hwmon-fan-matched@<i>"` for the first entry `i` that
+    `UpdateFanConfigFromHwMonControllers` rejects. -/
+def bindFans (matchp : String → String → Bool) (chips : List Chip) (sels : List FanSel) :
+    Res (List FanBinding) :=
+  bindEntriesLoop (bindFan matchp chips) "no-hwmon-fan-matched" 0 sels []
 
 /-! ## The matcher used by the driver -/
 
